@@ -86,6 +86,26 @@ def route (rx : Rx) (req : Option Bytes) : Nat → Opts → Bytes → Bool × Li
         let r := route rx req fuel child (groupStr url raw sel)
         (true, before ++ r.2 ++ if r.1 then [] else [.notFound])
 
+/-- The routing relation, stated without any scan: handler `id` is reached with `args` from `(o, url)`
+iff a chain of mounted applications, each the **first** option of its level that takes the URL it is
+given, leads (through the selected groups) to an application whose **first** taking option is that
+handler. -/
+inductive Reaches (rx : Rx) (req : Option Bytes) : Opts → Bytes → Nat → List (Option Bytes) → Prop where
+  | atHandler {o : Opts} {url : Bytes} {l : Leaf} {args : List (Option Bytes)} :
+      o.level.find? (takes rx req url) = some (.leaf l) →
+      leafTry rx req l url = some (true, .ran l.id args) →
+      Reaches rx req o url l.id args
+  | through {o : Opts} {url : Bytes} {re : Regex} {sel : Int} {child : Opts} {raw : Raw} {id : Nat} {args : List (Option Bytes)} :
+      o.level.find? (takes rx req url) = some (.mount re sel child) →
+      whole rx re url = some raw →
+      Reaches rx req child (groupStr url raw sel) id args →
+      Reaches rx req o url id args
+
+def _root_.Cppcms.C20.Event.args : Event → List (Option Bytes)
+  | .ran _ a => a
+  | .rejected _ a => a
+  | .notFound => []
+
 /-- `application::main` on the root -/
 def main (rx : Rx) (req : Option Bytes) (o : Opts) (url : Bytes) : List Event :=
   let r := route rx req (o.depth + 1) o url
